@@ -566,6 +566,8 @@ finalize_plan(Plan& p)
     p.sets("flavour", "fine");
     if (!p.cfg.count("sched.p_access"))
         p.setd("sched.p_access", ps[r.below(4)]);
+#elif defined(VSIM_PLAIN)
+    p.sets("flavour", "plain");
 #else
     (void)p;
 #endif
@@ -1192,8 +1194,11 @@ write_evidence(const CheckSpec& spec, const std::string& tier, uint64_t seed,
             warn.push_back(n);
         o += "  \"warnings\": " + jlist(warn) + ",\n";
     }
-    if (!extra.empty())
-        o += "  \"fine_flavour\": " + extra + ",\n";
+    if (!extra.empty()) {
+        const char* key = getenv("VSIM_EVIDENCE_EXTRA_KEY");
+        o += "  \"" + std::string(key && *key ? key : "fine_flavour") +
+             "\": " + extra + ",\n";
+    }
     o += "  \"components_real\": " + jlist(spec.real_components) + ",\n";
     o += "  \"components_stub\": " + jlist(spec.stub_components) + "\n";
     o += " }\n}\n";
